@@ -227,6 +227,32 @@ def run_case(case):
             new = pf.solveExplicitPDE(phi, 1e-3 * dt, rhs)
             if np.all(np.isfinite(new._value[tuple(slice(1, -1) for _ in range(g.nd))])):
                 ghosts(new, 'solveExplicitPDE')
+                # (4b) variables without a pre-computed boundary term (returned by the explicit solver, or constructed so):
+                # implicit solve, edit of one side, implicit solve again - each time ghosts, rows and interior must agree
+                var = new if rng.random() < 0.6 else pf.CellVariable(m, vals.copy(), gen.apply_bc_spec(pf.BoundaryConditions(m), g, dict(spec, periodic=[])), BCsTerm_precalc=False)
+                if var is not new:
+                    apply_flags(var.BCs, g, spec, 'both', rng)
+                for rnd in range(3):
+                    if rnd:
+                        kq = int(rng.integers(0, g.nd))
+                        if kq in spec['periodic']:
+                            break
+                        fq = getattr(var.BCs, SIDES[kq][int(rng.integers(0, 2))])
+                        if rnd == 1:
+                            fq.c = np.asarray(fq.c) - 0.6
+                        elif np.all(np.asarray(fq.a) == 0):
+                            fq.defaultNoFlux()
+                        else:
+                            fq.fixedValue(float(rng.normal()))
+                    spy_q = SpySolver()
+                    pf.solvePDE(var, [pf.transientTerm(var, dt, 1.0), -pf.diffusionTerm(D)], externalsolver=spy_q)
+                    if not np.all(np.isfinite(var._value[tuple(slice(1, -1) for _ in range(g.nd))])):
+                        break
+                    lab = 'solvePDE #%d on a variable without pre-computed boundary term (%s)' % (rnd + 1, 'from solveExplicitPDE' if var is new else 'BCsTerm_precalc=False')
+                    ghosts(var, 'solvePDE-no-precalc')
+                    rows_check(g, var, bad, maxerr, cov, lab)
+                    interior_consistency(g, var, spy_q, bad, maxerr, cov, lab)
+                    cov['no_precalc_round%d' % (rnd + 1)] = cov.get('no_precalc_round%d' % (rnd + 1), 0) + 1
             # (5) scale invariance of (a,b,c)
             lam = float(rng.choice([-3.0, 1e-6, 1e6, 0.37, -1.0]))
             k = int(rng.integers(0, g.nd))
@@ -295,7 +321,7 @@ def floors(agg, tier):
             out.append('cases:%s < 6' % cls)
     for k, need in (('op:constructor', 100), ('op:apply_BCs', 100), ('op:solvePDE', 80), ('op:solveExplicitPDE', 80),
                     ('robin_faces', 1000), ('wrap_faces', 200), ('rows-robin', 500), ('scale_invariance', 80), ('plotprofile_faces', 500), ('interior_consistency', 150),
-                    ('side_edit:left', 5), ('side_edit:right', 5), ('side_edit:bottom', 5), ('side_edit:top', 5), ('side_edit:back', 3), ('side_edit:front', 3)):
+                    ('no_precalc_round1', 80), ('no_precalc_round2', 40), ('no_precalc_round3', 40), ('side_edit:left', 5), ('side_edit:right', 5), ('side_edit:bottom', 5), ('side_edit:top', 5), ('side_edit:back', 3), ('side_edit:front', 3)):
         if agg['cov'].get(k, 0) < need:
             out.append('%s < %d' % (k, need))
     return out
